@@ -1,6 +1,7 @@
 package harness
 
 import (
+	"bytes"
 	"encoding/binary"
 	"encoding/hex"
 	"fmt"
@@ -221,6 +222,7 @@ func TestC19(t *testing.T) {
 	}
 	c19Groups(m, v, rng)
 	c19Attrs(v, samples)
+	c19TableOrder(m, v, rng, samples)
 	v.ModelAsks = pool.Asked()
 	v.Write(t)
 }
@@ -449,6 +451,87 @@ func c19Flip(m *Model, v *Verdict, cmp func(*Model, string, []byte, types.Encryp
 		}
 	}
 	cmp(m, "bitflip", d, key, want)
+}
+
+// c19TableOrder: a PAC that holds two logon-information buffers (the first entry of the buffer table counts, a
+// later one of the same type is ignored), laid out so that the table order is the reverse of the order of the data:
+// what is reported comes from the first table entry, wherever its octets lie.
+func c19TableOrder(m *Model, v *Verdict, rng *RNG, samples map[string][]byte) {
+	le32 := func(x uint32) []byte { b := make([]byte, 4); binary.LittleEndian.PutUint32(b, x); return b }
+	names := make([]string, 0, len(samples))
+	for n := range samples {
+		names = append(names, n)
+	}
+	sort.Strings(names)
+	for _, name := range names {
+		orig := splitPAC(samples[name])
+		sty := pacSigTypes[1+int(Seed())%(len(pacSigTypes)-1)]
+		key := types.EncryptionKey{KeyType: pacSigEtype(sty), KeyValue: randKey(rng, pacSigEtype(sty))}
+		var logon []byte
+		var rest []pacBuf
+		for _, bf := range orig {
+			switch bf.ty {
+			case 1:
+				logon = bf.data
+			case 6:
+				rest = append(rest, pacBuf{6, sigBuf(sty, false, rng)})
+			case 7:
+				rest = append(rest, pacBuf{7, sigBuf(sty, false, rng)})
+			default:
+				rest = append(rest, bf)
+			}
+		}
+		if logon == nil {
+			continue
+		}
+		// the genuine user id, as the sample's own decoding gives it, and a copy of the buffer with another one
+		probe, _, bad := signPAC(m, append([]pacBuf{{1, logon}}, rest...), key)
+		if bad != "" {
+			continue
+		}
+		r0, p0 := goPacProcess(probe, key)
+		if r0 != "ok" || p0.KerbValidationInfo == nil {
+			continue
+		}
+		uid := p0.KerbValidationInfo.UserID
+		pat := append(le32(uid), le32(p0.KerbValidationInfo.PrimaryGroupID)...)
+		at := bytes.Index(logon, pat)
+		if at < 0 || bytes.Index(logon[at+1:], pat) >= 0 {
+			continue
+		}
+		other := append([]byte{}, logon...)
+		binary.LittleEndian.PutUint32(other[at:], uid+395)
+		for _, reversed := range []bool{false, true} {
+			// data order: [other, genuine, ...]; table order after the swap: [genuine, other, ...]
+			bufs := append([]pacBuf{{1, other}, {1, logon}}, rest...)
+			wantUID := uid + 395
+			data, offs := buildPAC(bufs)
+			if reversed {
+				e0 := append([]byte{}, data[8:24]...)
+				copy(data[8:24], data[24:40])
+				copy(data[24:40], e0)
+				wantUID = uid
+			}
+			ans := m.Ask(fmt.Sprintf("pac.sign %s %s", X(key.KeyValue), X(data)))
+			if !strings.HasPrefix(ans, "ok ") {
+				continue
+			}
+			for i, bf := range bufs {
+				if bf.ty == 6 {
+					copy(data[offs[i]+4:], UnX(ans[3:]))
+					break
+				}
+			}
+			res, p := goPacProcess(data, key)
+			v.Case(fmt.Sprintf("table-order/%s/reversed=%v", name, reversed), "two logon-information buffers, table order vs data order")
+			switch {
+			case res != "ok" || p.KerbValidationInfo == nil:
+				v.Violate("failing-input", "c19:table-order:rejected", "a correctly signed PAC with a second logon-information buffer is refused", map[string]string{"pac": X(data), "key": X(key.KeyValue), "keytype": itoa(key.KeyType), "go": res, "table-reversed": fmt.Sprint(reversed)})
+			case p.KerbValidationInfo.UserID != wantUID:
+				v.Violate("failing-input", "c19:table-order:attributes", "the attributes reported do not come from the first logon-information entry of the buffer table", map[string]string{"pac": X(data), "key": X(key.KeyValue), "keytype": itoa(key.KeyType), "reported-user-id": fmt.Sprint(p.KerbValidationInfo.UserID), "first-table-entry-user-id": fmt.Sprint(wantUID), "table-reversed": fmt.Sprint(reversed)})
+			}
+		}
+	}
 }
 
 func c19Groups(m *Model, v *Verdict, rng *RNG) {
